@@ -82,7 +82,9 @@ def gen_kernel_case(rng, size):
         prev = t0
         for _ in range(ncalls):
             r = rng.random()
-            if r < 0.15 and front > prev:
+            if r < 0.04:
+                t = prev - h / 2               # malformed: before the window
+            elif r < 0.15 and front > prev:
                 t = prev + (front - prev) * Fr(rng.randint(0, 4), 4)
             elif r < 0.25:
                 pass                       # same time again
@@ -93,13 +95,19 @@ def gen_kernel_case(rng, size):
                 prev, front = front, front + h
     else:
         t = t0
+        prev = t0
         for _ in range(ncalls):
             r = rng.random()
-            if r < 0.1:
+            if r < 0.04:
+                t = prev - 1                   # malformed: before the window
+            elif r < 0.1:
                 pass
             else:
+                prev = t
                 t = t + Fr(rng.randint(1, 6), rng.choice([1, 2, 4]))
             ts.append(t)
+            if t < prev:
+                break
     return {"n": n, "m": m, "a": a, "b": b, "c": c, "e": e, "bi": bi,
             "M0": M0, "M1": M1, "y0": y0, "t0": t0, "h": h, "ts": ts,
             "adaptive": adaptive,
@@ -468,6 +476,55 @@ def _is_interp(c, k):
     return ((t - c["t0"]) / c["h"]).denominator != 1
 
 
+def run_init_coeff_corr(ctx, rng, ncases):
+    """malformed stream: tableau parts of inconsistent shapes; the real
+    _init_coeff must raise ValueError exactly when Model/C10_init.v says so"""
+    import qutip
+    from qutip.solver.integrator.explicit_rk import Explicit_RungeKutta
+    qevo = qutip.QobjEvo(qutip.Qobj(np.array([[1.0]])))
+    cases, exprs, got = [], [], []
+    for _ in range(ncases):
+        nc = rng.choice([1, 2, 3, 4])
+        nb = rng.choice([nc, nc, max(1, nc - 1), nc + 1])
+        na0 = rng.choice([nc, nc, nc, nc + 1, max(1, nc - 1)])
+        na1 = rng.choice([nc, nc, nc, nc + 1, max(1, nc - 1)])
+        ne = rng.choice([None, nb, nb, nb + 1, max(1, nb - 1)])
+        nbi = rng.choice([None, nc, nc, nc + 1, max(1, nc - 1)])
+        interp = rng.random() < 0.7
+        meth = {"order": 2, "a": np.zeros((na0, na1)), "b": np.ones(nb) / nb, "c": np.zeros(nc)}
+        if ne is not None:
+            meth["e"] = np.zeros(ne)
+        if nbi is not None:
+            meth["bi"] = np.zeros((nbi, 2))
+        try:
+            Explicit_RungeKutta(qevo, interpolate=interp, method=meth)
+            ok = True
+        except ValueError:
+            ok = False
+        cases.append((nb, nc, na0, na1, ne, nbi, interp))
+        got.append(ok)
+        exprs.append("init_coeff_ok %d %d %d %d %s %s %s" % (
+            nb, nc, na0, na1, vlib.copt(ne), vlib.copt(nbi), vlib.cbool(interp)))
+    hdr = "From Coq Require Import Arith Bool.\nFrom QV Require Import Model.C10_init.\n"
+    try:
+        vals = vlib.coq_eval_values("cases_C10i", hdr, exprs, chunk=400)
+    except RuntimeError as e:
+        ctx.violation("corr:C10:init-model-eval", "coqc", "init_coeff model evaluation failed",
+                      {"log": str(e)}, found_input=False)
+        return
+    nbad = 0
+    for c, g, v in zip(cases, got, vals):
+        ctx.count_case(("init_coeff",) + c, nontrivial=True)
+        ctx.cov["traces_validated_against_impl"] += 1
+        nbad += 0 if g else 1
+        if vlib.parse_coq_value(v) != g:
+            ctx.violation("corr:explicit_rk._init_coeff", "accepts" if g else "rejects",
+                          "_init_coeff %s a tableau with shapes (b,c,a0,a1,e,bi,interpolate)=%r "
+                          "against the shape rule" % ("accepts" if g else "rejects", c),
+                          {"kind": "init_coeff", "shapes": list(c)}, found_input=True)
+    ctx.cov["input_distribution"]["init_coeff"] = {"cases": len(cases), "rejected": nbad}
+
+
 # =====================================================================
 #  K2: state packing
 # =====================================================================
@@ -579,7 +636,17 @@ def packing_roundtrip_oracle(ctx, rng, ncases):
         stacked = solver_kind != "se" and form in ("ket", "ket_unnorm", "dm", "dm_unnorm")
         want_shape = (N * N, 1) if stacked else expect.shape
         # normalisation rule of _prepare_state, written independently
-        unit = form in ("ket", "dm")
+        # (unit norm / unit trace is decided from the data, independently of qutip)
+        arr0 = s.full()
+        if form in ("ket", "ket_unnorm"):
+            n2 = float(np.sum(np.abs(arr0) ** 2))
+            unit = abs((n2 if solver_kind != "se" else math.sqrt(n2)) - 1) <= 1e-12
+        elif form in ("dm", "dm_unnorm"):
+            unit = abs(np.trace(arr0) - 1) <= 1e-12
+        elif form in ("oper", "oper_id") and solver_kind == "se":
+            unit = False           # operators are never normalised by sesolve
+        else:
+            unit = False
         should_norm = norm_opt and unit and (stacked or expect.shape[1] == 1)
         problems = []
         if tuple(data.shape) != tuple(want_shape):
@@ -860,6 +927,58 @@ def check_td_case(sysd, kind, method):
     return bad
 
 
+def check_floquet_br_case(sysd):
+    """periodic H(t) = H + cos(w t) H1: the Floquet-basis solution (fsesolve,
+    FloquetBasis.state / to_/from_floquet_basis built from the one-period
+    propagator) against sesolve; brmesolve without a_ops against mesolve."""
+    import qutip
+    N = sysd["N"]
+    w = 2.0
+    T = 2 * np.pi / w
+    tl = sorted(set(list(sysd["tlist"]) + [T, T + 0.37]))
+    Ht = qutip.QobjEvo([qutip.Qobj(sysd["H"]), [qutip.Qobj(sysd["H1"]), lambda t: np.cos(w * t)]])
+    psi = qutip.Qobj(sysd["psi"].reshape(N, 1))
+    tight = {"atol": ATOL, "rtol": RTOL, "nsteps": 100000}
+    bad = []
+    ref = qutip.sesolve(Ht, psi, tl, options=_opts("vern9", {"store_states": True}))
+    fb = qutip.FloquetBasis(Ht, T, options=dict(tight))
+    rf = qutip.fsesolve(fb, psi, tl, options={"store_states": True, "normalize_output": False})
+    tol = 4 * _tol(psi.full())
+    for k in range(len(tl)):
+        err = np.linalg.norm(rf.states[k].full() - ref.states[k].full())
+        if not err <= tol:
+            bad.append(("floquet-vs-sesolve", "fsesolve differs from sesolve at t=%g: %.2e" % (tl[k], err)))
+            break
+    t1 = tl[1]
+    fk = fb.to_floquet_basis(psi, t1)
+    back = fb.from_floquet_basis(fk, t1)
+    err = np.linalg.norm(back.full() - psi.full())
+    if not err <= tol:
+        bad.append(("floquet-basis-roundtrip", "from_floquet_basis(to_floquet_basis(psi)) differs: %.2e" % err))
+    # Floquet state k at time t = mode(t) exp(-i e_k t); evolving state(0) gives state(t)
+    st0 = fb.state(0.0, data=False)
+    stt = fb.state(t1, data=False)
+    st0 = st0 if isinstance(st0, list) else [st0]
+    stt = stt if isinstance(stt, list) else [stt]
+    ev = qutip.sesolve(Ht, st0[0], [0, t1], options=_opts("vern9", {"store_states": True})).states[-1]
+    err = np.linalg.norm(ev.full() - stt[0].full())
+    if not err <= tol:
+        bad.append(("floquet-state-vs-sesolve", "FloquetBasis.state(t) is not the evolved state(0): %.2e" % err))
+    cops = [qutip.Qobj(c) for c in sysd["cops"]]
+    rho0 = qutip.ket2dm(psi)
+    ra = qutip.mesolve(qutip.Qobj(sysd["H"]), rho0, sysd["tlist"], c_ops=cops,
+                       options=_opts("vern9", {"store_states": True}))
+    rb = qutip.brmesolve(qutip.Qobj(sysd["H"]), rho0, sysd["tlist"], a_ops=[], c_ops=cops,
+                         options={"atol": ATOL, "rtol": RTOL, "nsteps": 100000, "store_states": True,
+                                  "normalize_output": False})
+    for k in range(len(sysd["tlist"])):
+        err = np.linalg.norm(ra.states[k].full() - rb.states[k].full())
+        if not err <= tol:
+            bad.append(("brmesolve-vs-mesolve", "brmesolve without a_ops differs from mesolve: %.2e" % err))
+            break
+    return bad
+
+
 def run_oracle(ctx, rng, budget):
     """budget: number of random systems"""
     import qutip
@@ -894,6 +1013,8 @@ def run_oracle(ctx, rng, budget):
                        ["vern7", "vern9", "adams"][k % 3]):
             _guard(ctx, "td", [method, kind], sysd, lambda: check_td_case(sysd, kind, method))
             dist["td"] += 1
+        _guard(ctx, "floquet_br", [], sysd, lambda: check_floquet_br_case(sysd))
+        dist["floquet_br"] = dist.get("floquet_br", 0) + 1
     ctx.cov["input_distribution"]["oracle_runs"] = dist
     ctx.log("oracle: %d sesolve, %d mesolve, %d time-dependent route checks"
             % (dist["se"], dist["me"], dist["td"]))
@@ -1040,11 +1161,25 @@ def run(ctx):
         run_kernel_corr(ctx, r2, 40)
         run_oracle(ctx, r2, 1)
 
+    # the kernel / packing / matrix theorems: coqc, and coqchk in the thorough tier
+    vlib.standard_proof_step(ctx, ["Props/C10.vo", "Props/C10_mx.vo"],
+                             ["Props/C10.v", "Props/C10_mx.v"], search)
     if tabs is not None:
-        vlib.standard_proof_step(ctx, ["Props/C10.vo", "Props/C10_mx.vo"],
-                                 ["Props/C10.v", "Props/C10_mx.v"], search)
+        # the computed tableau facts are evaluated by the kernel's VM (about 6
+        # minutes of vm_compute for the 2056 plane trees of order <= 9 on 26
+        # stages); coqchk has no VM and would take hours, so these are checked
+        # by coqc only - recorded in the evidence as such
+        had = "coqchk" in ctx.cov
+        if not had:
+            ctx.cov["coqchk"] = []
+        vlib.standard_proof_step(ctx, ["Props/C10_tab.vo"], ["Props/C10_tab.v"], search)
+        if not had and not ctx.cov["coqchk"]:
+            del ctx.cov["coqchk"]
+        ctx.notes.append("Props/C10_tab.v (vm_compute evaluations of the order conditions) is "
+                         "checked by coqc only, not by coqchk (no VM in coqchk)")
     # ---- K
     run_kernel_corr(ctx, rng, 160 if ctx.quick else 1500)
+    run_init_coeff_corr(ctx, rng, 80 if ctx.quick else 400)
     run_packing_corr(ctx, rng, 60 if ctx.quick else 400)
     packing_roundtrip_oracle(ctx, rng, 60 if ctx.quick else 400)
     if tabs is not None:
@@ -1084,6 +1219,9 @@ def replay(ctx, payload):
             bad = check_se_case(sysd, *key[:3])
         elif d["which"] == "mesolve":
             bad = check_me_case(sysd, *key[:4])
+        elif d["which"] == "floquet_br":
+            bad = check_floquet_br_case(sysd)
+            key = []
         else:
             bad = check_td_case(sysd, key[1], key[0])
         for sig, what in bad:
@@ -1092,6 +1230,8 @@ def replay(ctx, payload):
         tableau_search(ctx, d.get("failed_theorems", []), "")
     elif kind == "validation":
         run_validation(ctx, random.Random(payload.get("seed", 0)), tx.read_all())
+    elif kind == "init_coeff":
+        run_init_coeff_corr(ctx, random.Random(payload.get("seed", 0)), 200)
     elif kind in ("packing", "packing_roundtrip"):
         r = random.Random(payload.get("seed", 0) * 104729 + 10)
         run_packing_corr(ctx, r, 60)
